@@ -117,7 +117,7 @@ func TestC16Automatic(t *testing.T) {
 	evid.Check(t, rec, evid.N(200, 600), func(t *rapid.T) {
 		w := &c16World{}
 		w.dialectKind = rapid.SampledFrom([]string{"common", "common", "ardupilotmega", "ardupilotmega", "ardupilotmega", "minimal", "user", "user", "user", "user-no-hb", "user-fake-hb", "user-no-rds", "user-fake-rds", "nil"}).Draw(t, "dialect")
-		w.version = rapid.OneOf(rapid.SampledFrom([]int{0, 0, 1, 3, 255, 256, 300}), rapid.IntRange(0, 255)).Draw(t, "version")
+		w.version = rapid.OneOf(rapid.Just(0), rapid.SampledFrom([]int{0, 1, 3, 255, 256, 300}), rapid.IntRange(0, 255)).Draw(t, "version")
 		w.hbEnabled = rapid.IntRange(0, 3).Draw(t, "hb") > 0
 		w.period = time.Duration(rapid.IntRange(20, 80).Draw(t, "period_ms")) * time.Millisecond
 		w.sysType = rapid.IntRange(1, 255).Draw(t, "systype")
